@@ -4,6 +4,7 @@ package session
 
 import (
 	"errors"
+	"strings"
 	"sync/atomic"
 
 	"github.com/lugu/qiloop/bus"
@@ -11,8 +12,8 @@ import (
 	"github.com/lugu/qiloop/bus/net"
 	"github.com/lugu/qiloop/bus/services"
 	"github.com/lugu/qiloop/bus/util"
-	"github.com/lugu/qiloop/type/object"
 	"github.com/lugu/qiloop/internal/zzverif/sym"
+	"github.com/lugu/qiloop/type/object"
 )
 
 // c19Shared: goroutines concurrently request clients from one session for services behind the
@@ -229,24 +230,50 @@ func zzFullSession() (bus.Server, *Session, *int32) {
 // C19Full: goroutines concurrently ask one real session for proxies (by name) and for objects (by
 // reference) of the directory service: every request succeeds with a proxy that works (a call through
 // it is answered), the process does not crash (no unsynchronised map access), one connection is held.
-func C19Full() {
+func C19Full()       { c19Full(false) }
+func C19MultiHomed() { c19Full(true) }
+
+func c19Full(multiHomed bool) {
 	sym.Schedules(false) // the set-up (server start, session establishment) runs under the default schedule
 	srv, s, _ := zzFullSession()
 	if s == nil {
 		return
 	}
+	// a second service, advertised behind three addresses: two of the test range (never dialled) and
+	// an alias of the server's own address (another pool key: the first request has to connect)
+	multi := bus.NewBasicObject(zzNopActor{}, object.MetaObject{Description: "multi"}, func(string, []byte) error { return nil })
+	_, err := srv.NewService("multi", multi)
+	sym.Assert(err == nil, "full/multi-service-registered")
+	info, err := s.Directory.Service("multi")
+	sym.Assert(err == nil, "full/multi-service-listed")
+	if err != nil || len(info.Endpoints) == 0 {
+		return
+	}
+	alias := "unix:///" + strings.TrimPrefix(info.Endpoints[0], "unix://")
+	info.Endpoints = []string{"tcp://198.18.0.1:9559", "tcp://198.18.0.2:9559", alias}
+	sym.Assert(s.Directory.UpdateServiceInfo(info) == nil, "full/multi-service-updated")
+	s.updateServiceList()
 	sym.Schedules(true)
 	const n = 2
 	proxies := make([]bus.Proxy, n)
 	errs := make([]error, n)
+	kinds := make([]int, n)
 	done := make(chan bool, n)
 	for i := 0; i < n; i++ {
-		byRef := sym.Choose("request-kind", 2) == 1
+		// C19Full: requests for the directory service by name / by reference; C19MultiHomed: both
+		// goroutines ask for the multi-homed service (its first connection)
+		kinds[i] = 2
+		if !multiHomed {
+			kinds[i] = sym.Choose("request-kind", 2)
+		}
 		go func(i int) {
-			if byRef {
+			switch kinds[i] {
+			case 1:
 				ref := object.ObjectReference{ServiceID: 1, ObjectID: 1, MetaObject: object.MetaObject{}}
 				proxies[i], errs[i] = s.Object(ref)
-			} else {
+			case 2:
+				proxies[i], errs[i] = s.Proxy("multi", 1)
+			default:
 				proxies[i], errs[i] = s.Proxy("ServiceDirectory", 1)
 			}
 			done <- true
@@ -264,9 +291,23 @@ func C19Full() {
 			sym.Assert(err == nil && len(resp) > 0, "full/proxy-does-not-work")
 		}
 	}
+	want := 1
+	if kinds[0] == 2 || kinds[1] == 2 {
+		want = 2 // the directory's address and the alias
+	}
 	s.pollMutex.RLock()
-	sym.Assert(len(s.poll) == 1, "full/connections-held")
+	sym.Assert(len(s.poll) == want, "full/connections-held")
 	s.pollMutex.RUnlock()
+	// the advertised addresses are what they were (nobody scrambled the shared list)
+	after, err := s.findServiceName("multi")
+	sym.Assert(err == nil && len(after.Endpoints) == 3, "full/multi-service-endpoints")
+	if err == nil && len(after.Endpoints) == 3 {
+		seen := map[string]int{}
+		for _, e := range after.Endpoints {
+			seen[e]++
+		}
+		sym.Assert(seen["tcp://198.18.0.1:9559"] == 1 && seen["tcp://198.18.0.2:9559"] == 1 && seen[alias] == 1, "full/multi-service-addresses-changed")
+	}
 	s.Terminate()
 	srv.Terminate()
 	sym.Reach("full-done")
@@ -312,3 +353,11 @@ func C19RefreshOrder() {
 	close(s.added)
 	sym.Reach("refresh-order-done")
 }
+
+type zzNopActor struct{}
+
+func (zzNopActor) Receive(m *net.Message, from bus.Channel) error {
+	return from.SendError(m, bus.ErrActionNotFound)
+}
+func (zzNopActor) Activate(a bus.Activation) error { return nil }
+func (zzNopActor) OnTerminate()                    {}
